@@ -83,7 +83,17 @@ category: Wallet
 let: hits = [r for r in orders if r.amount > 1000]
 match: len(hits) > 0
 category: Refunded
+
+[Shop Tag]
+match: contains("SHOP") and amount > 0
+tags: shoptag
+
+[Store Tag]
+match: contains("STORE")
+tags: storetag
 '''
+# (R1 and R2 have the same NUMBER of rules, and different literals at the same positions: whatever an engine object remembers
+#  per rule position across parse() calls shows up)
 # R3 / R4: read with rule_mode most_specific (first line, decoded by _load); identical rule names and match expressions,
 # only the priorities differ - so anything remembered per expression text across loads (a specificity, a compiled matcher,
 # a winner) shows up as a stale decision
@@ -141,22 +151,27 @@ category: Food
 # The CSV files carry the same NUMBER of rules and the same merchant NAMES, in the same order, as R1 resp. R2 (the natural case: the
 # legacy file a .rules file was once migrated from, edited since): whatever they have in common with a rule set loaded earlier,
 # they are classified by what THEY say.
-K1 = '''Pattern,Merchant,Category,Subcategory,Tags
-# legacy rules (the first one only tags, with a plain lower-case tag, and matches every transaction of the world: whatever a
-# later matching rule adds for one transaction must not stay with this rule for the next)
-\\d\\d,Coffee,,,num
-ALFA,Large,CsvFood,One,k1
-ZZZQ1,Ach,CsvNever,One,
-CHARLIE[amount>20],Charlie,CsvShop,One,
-ZZZQ2,Ordered,CsvNever,Two,
-'''
-K2 = '''Pattern,Merchant,Category,Subcategory,Tags
-CHARLIE,Coffee,CsvTwo,Two,k2|legacy
-APLPAY\\s+ALFA,Large,CsvTwo,Two,
-ZZZQ3,Charlie,CsvNever,Two,
-ZZZQ4,Apple,CsvNever,Two,
-ZZZQ5,Hits,CsvNever,Two,
-'''
+def _names(rules_text):
+    import re as _re
+    return _re.findall(r'^\[(.+)\]\s*$', rules_text, _re.M)
+
+
+def _csv_like(rules_text, rows):
+    """A legacy CSV with as many rules as `rules_text` and the same merchant names in the same order: the given rows (pattern,
+    category, subcategory, tags) for the first names, rows that match nothing for the rest."""
+    names = _names(rules_text)
+    out = ['Pattern,Merchant,Category,Subcategory,Tags', '# legacy rules']
+    for k, name in enumerate(names):
+        pat, cat, sub, tags = rows[k] if k < len(rows) else ('ZZZQ%d' % k, 'CsvNever', 'Two', '')
+        out.append('%s,%s,%s,%s,%s' % (pat, name, cat, sub, tags))
+    return '\n'.join(out) + '\n'
+
+
+# (the first rule of K1 only tags, with a plain lower-case tag, and matches every transaction of the world: whatever a later
+#  matching rule adds for one transaction must not stay with this rule for the next)
+K1 = _csv_like(R1, [('\\d\\d', '', '', 'num'), ('ALFA', 'CsvFood', 'One', 'k1'), ('ZZZQ1', 'CsvNever', 'One', ''),
+                    ('CHARLIE[amount>20]', 'CsvShop', 'One', '')])
+K2 = _csv_like(R2, [('CHARLIE', 'CsvTwo', 'Two', 'k2|legacy'), ('APLPAY\\s+ALFA', 'CsvTwo', 'Two', '')])
 CONTENT = {'R1': R1, 'R2': R2, 'R3': R3, 'R4': R4, 'RBAD': RBAD, 'K1': K1, 'K2': K2}
 MISSING = {'RMISSING', 'KMISSING'}
 ROK = ['R1', 'R2', 'R3', 'R4']
